@@ -577,7 +577,10 @@ func signedForMemo(cfg vcfg, tok, id string) (anyKey, named bool) {
 // Statement: accepted only if signed with a key the storage holds for iss, aud contains
 // the provider's issuer, unexpired, issued neither in the future nor more than the allowed
 // age ago, sub = iss (unless a custom subject check is configured).
-// Time comparisons within |offset|+1s of a boundary are judged Either (DESIGN §1.6).
+// Time comparisons: exp <= now-1s must be rejected whatever the offset, exp >= now+offset+1s is
+// unexpired under every reading; iat > now+offset+1s is "in the future", iat <= now is not; the
+// max-age bound is judged Either within offset+1s on both sides (DESIGN §1.6, same reading as C01:
+// the skew allowance is applied to exp in the strict and to iat in the lenient direction).
 func judge(a assertionT, tok string, t0, now time.Time, cfg vcfg) (want, string) {
 	band := cfg.offset + time.Second
 	soft := ""
@@ -598,11 +601,18 @@ func judge(a assertionT, tok string, t0, now time.Time, cfg vcfg) (want, string)
 	if n, ok := relSeconds(a.exp); !ok {
 		return mustReject, "exp-absent"
 	} else {
+		// "unexpired": an assertion whose exp lies a whole second or more behind the clock is expired
+		// under every reading, WHATEVER the offset (the offset is an allowance for skew; nothing in
+		// the statement lets it prolong a lifetime); from now+offset+1s on expiry cannot be the
+		// reason to refuse; in between (whole-second claims, rounding, the skew allowance applied
+		// in the strict direction) Either.
 		d := t0.Add(time.Duration(n) * time.Second).Sub(now)
 		switch {
-		case d < -band:
+		case d <= -band:
 			return mustReject, "expired"
-		case d <= band:
+		case d <= -time.Second:
+			return mustReject, "expired-less-than-offset-ago"
+		case d < band:
 			soft = "inside-clock-band"
 		}
 	}
@@ -697,7 +707,7 @@ func TestCheck(t *testing.T) {
 	c.SetRule("E1: per part, the full product over the interacting dimension groups crossed with every <=k deviations of the remaining dimensions; each vector is one execution of the real code (op.VerifyJWTAssertion, the HTTP handlers of both routers, the client helpers) in a synctest bubble, judged by a three-valued reference predicate written from the statement; signatures decided independently with crypto/rsa, crypto/ecdsa, crypto/ed25519 over the harness' own registration table; the history parts take the full product of 2 (thorough 3) letters x verifier kind / router, one fresh instance per sequence, rule = expectation class of each call (A must accept, R must reject, E either), outcome = what each call did; distinct = (part, oracle rule, observed outcome class)")
 	c.Assume("Go standard library signature primitives are correct (they are the signature oracle)",
 		"refstore is the storage (keys looked up by (kid, client or service user id); part of the trusted base)",
-		"clock band: |offset|+1s around each time boundary is judged Either (DESIGN §1.6)",
+		"clock band: exp in (now-1s, now+offset+1s), iat in (now, now+offset+1s], iat within offset+1s of now-maxAge are judged Either (DESIGN §1.6); exp <= now-1s must be refused whatever the offset",
 		"a signature by a key of iss under a kid that does not name it, an algorithm outside RS256/ES256/PS256, an absent iat without max age: Either",
 		"histories: every call of a sequence happens at the same instant and against the same storage content; only state held by the verifier / provider instance itself is carried from call to call",
 		"request objects: absent client_id / response_type member in the object: Either; scope is not required to be overridden when the plain scope lacks openid")
@@ -708,6 +718,7 @@ func TestCheck(t *testing.T) {
 	}{ // cheapest first: should the deadline strike on a crowded machine, the small parts are complete
 		{"nearmiss-verify", runNearMissVerify}, {"nearmiss-reqobj", runNearMissReqObj}, {"nearmiss-endpoint", runNearMissEndpoint},
 		{"interop", runInterop}, {"history-reqobj", runHistoryReqObj}, {"reqobj-rt", runReqObjRT}, {"history-verify", runHistoryVerify}, {"history-endpoint", runHistoryEndpoint},
+		{"window-verify", runWindowVerify}, {"window-endpoint", runWindowEndpoint},
 		{"reqobj", runReqObj}, {"endpoint", runEndpoint}, {"verify", runVerify}} {
 		// development aid: C14_PARTS=a,b runs only those parts (and marks the run as capped)
 		if only := os.Getenv("C14_PARTS"); only != "" && !slices.Contains(strings.Split(only, ","), p.name) {
